@@ -1,0 +1,44 @@
+//go:build verif
+
+// Package verifhook provides named points inside a few functions where an
+// external verification harness can yield or stop a member. This file is only
+// compiled with the "verif" build tag.
+package verifhook
+
+import "sync"
+
+// Enabled is true when the binary is built with the "verif" tag.
+const Enabled = true
+
+var (
+	mu       sync.RWMutex
+	handlers = map[string]func(args ...string){}
+)
+
+// Set registers (or, with a nil handler, removes) the handler of a point.
+func Set(name string, f func(args ...string)) {
+	mu.Lock()
+	defer mu.Unlock()
+	if f == nil {
+		delete(handlers, name)
+		return
+	}
+	handlers[name] = f
+}
+
+// Reset removes every handler.
+func Reset() {
+	mu.Lock()
+	defer mu.Unlock()
+	handlers = map[string]func(args ...string){}
+}
+
+// Point calls the handler registered for name, if any.
+func Point(name string, args ...string) {
+	mu.RLock()
+	f := handlers[name]
+	mu.RUnlock()
+	if f != nil {
+		f(args...)
+	}
+}
